@@ -224,6 +224,7 @@ void circuit_read_single_operation(Circuit &circuit, char lead_char, SOURCE read
             CircuitInstruction(gate.id, circuit.arg_buf.tail, circuit.target_buf.tail, tail_tag).validate();
         }
     } catch (const std::invalid_argument &ex) {
+        circuit.tag_buf.discard_tail();
         circuit.target_buf.discard_tail();
         circuit.arg_buf.discard_tail();
         throw ex;
